@@ -20,6 +20,7 @@ import PeroVerif.Drv.C14
 import PeroVerif.Drv.C15
 import PeroVerif.Drv.C16
 import PeroVerif.Drv.C17
+import PeroVerif.Drv.C18
 import PeroVerif.Drv.C19
 open Lean Drv
 
@@ -42,6 +43,7 @@ def dispatch (p : String) : Option Handler :=
   | "C15" => some Drv.C15.handle
   | "C16" => some Drv.C16.handle
   | "C17" => some Drv.C17.handle
+  | "C18" => some Drv.C18.handle
   | "C19" => some Drv.C19.handle
   | _ => none
 
